@@ -117,7 +117,7 @@ func alphabet() []stmt {
 	t1 := model.T(a, P, model.ON(b))
 	t2 := model.T(b, P, model.OL(bqlm.LInt))
 	t3 := model.T(a, bqlm.PT1, model.ON(c))
-	t4 := model.T(c, bqlm.PT2, model.OP(bqlm.PT1))
+	t4 := model.T(c, bqlm.PT2, model.OP(bqlm.PT1Z)) // the object's anchor is T1 written in another zone than t3's
 	pw := []bqlm.Clause{{S: bt("?s"), P: bqlm.Term{Kind: bqlm.Const, P: P}, O: bt("?o")}}
 	tw := []bqlm.Clause{{S: bt("?s"), P: bqlm.Term{Kind: bqlm.AnchorBind, ID: "p", Name: "?t"}, O: bt("?o")}}
 	qw := []bqlm.Clause{{S: bt("?s"), P: bqlm.Term{Kind: bqlm.Const, P: Q}, O: bt("?o")}}
